@@ -26,6 +26,8 @@ var endings = []ending{
 	{name: "abortdrop", ops: func(b int) []Op { return []Op{{K: "abort", B: b, F: true}} }, gone: true, aborted: true},
 	{name: "rm", rm: true, ops: func(b int) []Op { return completeOps(b, 2) }, gone: true, completed: true},
 	{name: "setcur", ops: func(b int) []Op { return []Op{{K: "setcur", B: b, N: 5}} }, completed: true},
+	// Abort(true) on a bar that has already completed changes nothing: it stays, completed
+	{name: "completeXabortdrop", ops: func(b int) []Op { return []Op{{K: "incr", B: b, N: 2}, {K: "abort", B: b, F: true}} }, completed: true},
 	// a bar with unknown total aborted while current == total: must end aborted, not completed
 	{name: "abort0", total: -1, ops: func(b int) []Op { return []Op{{K: "abort", B: b}} }, aborted: true},
 }
